@@ -31,7 +31,7 @@ func TestMain(m *testing.M) {
 		childMain()
 		return
 	}
-	kit.TestMain(m, 4000, 40000)
+	kit.TestMain(m, 5000, 40000)
 }
 
 func TestC14(t *testing.T) {
